@@ -44,7 +44,7 @@ func base() []ruleD {
 		{ID: 2, Targets: []string{"ARGS:a", "ARGS:b"}, Tag: "t1", Msg: "m2", Disr: "pass"},
 		{ID: 3, Targets: []string{"ARGS"}, Tag: "t2", Disr: "pass"},
 		{ID: 4, Targets: []string{"ARGS:b"}, Tag: "t2", Msg: "m2", Disr: "pass", Chain: []string{"ARGS:c"}},
-		{ID: 5, Targets: []string{"ARGS:c"}, Disr: "pass"},
+		{ID: 5, Targets: []string{"ARGS_GET:c", "REQUEST_COOKIES:c", "REQUEST_COOKIES:a"}, Disr: "pass"},
 	}
 }
 
@@ -187,6 +187,11 @@ func directives(thorough bool) []directive {
 		for _, tgt := range []string{"!ARGS:a", "!ARGS:/^b/", "ARGS:c", "!ARGS:B"} {
 			ds = append(ds, directive{Kind: "updateTargetById", IDs: ids, Arg: tgt})
 		}
+		if ids == "4 5" {
+			for _, tgt := range []string{"!ARGS_GET:c", "!REQUEST_COOKIES:c", "!REQUEST_COOKIES"} {
+				ds = append(ds, directive{Kind: "updateTargetById", IDs: ids, Arg: tgt})
+			}
+		}
 		for _, act := range []string{"deny,status:403", "msg:'new'", "setvar:tx.u=+1"} {
 			ds = append(ds, directive{Kind: "updateActionById", IDs: ids, Arg: act})
 		}
@@ -207,6 +212,10 @@ func directives(thorough bool) []directive {
 			for _, tgt := range []string{"ARGS:a", "ARGS:/^b/", "ARGS:B"} {
 				ds = append(ds, directive{Ctl: true, Kind: "removeTarget", IDs: ids, Arg: tgt, Pos: pos})
 			}
+		}
+		// rule 5 reads three collection/key pairs: the removal names exactly one of them
+		for _, tgt := range []string{"ARGS_GET:c", "REQUEST_COOKIES:c", "REQUEST_COOKIES:a", "ARGS_GET", "REQUEST_COOKIES"} {
+			ds = append(ds, directive{Ctl: true, Kind: "removeTarget", IDs: "5", Arg: tgt, Pos: pos})
 		}
 		for _, tag := range []string{"t1", "t2"} {
 			ds = append(ds, directive{Ctl: true, Kind: "removeByTag", Tag: tag, Pos: pos})
@@ -311,6 +320,10 @@ func requests() []scen.Req {
 					uri += "?" + strings.Join(parts, "&")
 				}
 				out = append(out, scen.Req{URI: uri})
+				if b == "" {
+					// the same names also as cookies: a target removal on one collection of a rule must not touch the others
+					out = append(out, scen.Req{URI: uri, Headers: [][2]string{{"Cookie", "c=x; a=x"}}})
+				}
 			}
 		}
 	}
